@@ -19,7 +19,7 @@ RULE = ("Generated: (units) a portfolio spec over all asset classes (contracts, 
         "consumption, start/shutdown profiles, order capacities) is multiplied by k = target/source unit and every "
         "duration (minimum runtime/downtime, already running/off, maximum holding time) divided by k; volumes, "
         "prices and per-volume costs stay. Oracle (a) the assembled c,l,u,A,b,cType are equal (rtol 1e-9, no solver); "
-        "(b) on every 4th case the optimal values are equal; (steps) grids with unequal steps (daily steps across a "
+        "(a') in 1 of 2 cases the same interval by interval through setup_split_optim_problem (12h, d, 2d); (b) on every 4th case the optimal values are equal; (steps) grids with unequal steps (daily steps across a "
         "DST switch, calendar months): Timegrid.dt = real elapsed time and the per-step bounds of contract, transport "
         "and storage equal rate x dt_t, so that totals equal rate x elapsed time. Non-trivial: (units) the "
         "portfolio contains >= 1 rate and (>= 1 duration parameter or wacc != 0 or a take); (steps) the grid has >= "
@@ -41,6 +41,7 @@ def _units(draw):
     u1 = spec["grid"]["mtu"]
     spec["target"] = draw(st.sampled_from([u for u in ("h", "d", "min") if u != u1]))
     spec["kind"] = "units"
+    spec["split"] = draw(st.sampled_from([None, None, None, "12h", "d", "2d"]))
     # give plants ramps / downtime so that durations and rates are both present
     cxd = float(tl.dt(spec["grid"])[0])
     for a in spec["assets"]:
@@ -165,7 +166,7 @@ def same_problem(out, A, B, what):
 
 
 def check_units(spec, out):
-    base = {k: v for k, v in spec.items() if k not in ("target", "kind")}
+    base = {k: v for k, v in spec.items() if k not in ("target", "kind", "split")}
     s2, feats = convert(base, spec["target"])
     out.label("units:%s->%s" % (base["grid"]["mtu"], spec["target"]))
     r1 = obs.Run(base)
@@ -175,6 +176,21 @@ def check_units(spec, out):
     if is_err(r2.op):
         return out.fail("after re-expressing all rates and durations in unit '%s' set-up raises %s" % (spec["target"], r2.op.short()))
     same_problem(out, r1.op, r2.op, "unit %s vs %s" % (base["grid"]["mtu"], spec["target"]))
+    if spec.get("split") and not out.violations:
+        # the same through the split build: interval by interval the same problems
+        rs1 = obs.Run(base, split=spec["split"])
+        if not is_err(rs1.op):
+            out.label("split_build")
+            rs2 = obs.Run(s2, split=spec["split"])
+            if is_err(rs2.op):
+                out.fail("split set-up in unit '%s' raises %s" % (spec["target"], rs2.op.short()))
+            elif len(rs1.op.ops) != len(rs2.op.ops):
+                out.fail("split: %d intervals in unit %s, %d in unit %s" % (len(rs1.op.ops), base["grid"]["mtu"], len(rs2.op.ops), spec["target"]))
+            else:
+                for i, (o1, o2) in enumerate(zip(rs1.op.ops, rs2.op.ops)):
+                    same_problem(out, o1, o2, "split interval %d, unit %s vs %s" % (i, base["grid"]["mtu"], spec["target"]))
+                    if out.violations:
+                        break
     takes = any(a.get("min_take") or a.get("max_take") for a in base["assets"])
     wacc = any(a.get("wacc") for a in base["assets"])
     out.nontrivial = feats["rate"] > 0 and (feats["dur"] > 0 or wacc or takes)
